@@ -33,5 +33,18 @@ MCScnCulprit(i)      == Scn[i].culprit
 
 Spec == SInit2 /\ [][SNext2]_svars2
 
-Emit == SDone => PrintT(ToJson([scn |-> scn, o |-> m.out, ev |-> m.ev, defs |-> m.defs]))
+HNames == IF m.out.r = "ok" THEN {m.out.hl[k][1] : k \in DOMAIN m.out.hl} ELSE {}
+HMapKinds ==
+  IF m.out.r # "ok" THEN <<>>
+  ELSE LET names == SortedSeq({k \in DOMAIN m.out.hl : \A j \in DOMAIN m.out.hl : j < k => m.out.hl[j][1] # m.out.hl[k][1]})
+           nm(i) == m.out.hl[names[i]][1]
+       IN  <<[kind |-> "complete", name |-> "", res |-> CallOutcome(m.out.hl, HNames, {}, FALSE)]>>
+           \o [i \in DOMAIN names |-> [kind |-> "missing", name |-> nm(i),
+                                        res |-> CallOutcome(m.out.hl, HNames \ {nm(i)}, {}, FALSE)]]
+           \o [i \in DOMAIN names |-> [kind |-> "none", name |-> nm(i),
+                                        res |-> CallOutcome(m.out.hl, HNames, {nm(i)}, FALSE)]]
+           \o [i \in DOMAIN names |-> [kind |-> "dup", name |-> nm(i),
+                                        res |-> CallOutcome(m.out.hl, HNames, {}, TRUE)]]
+
+Emit == SDone => PrintT(ToJson([scn |-> scn, o |-> m.out, ev |-> m.ev, defs |-> m.defs, hmaps |-> HMapKinds]))
 =========================================================================
